@@ -72,6 +72,45 @@ def phase_argv(kw):
     return argv + [kw["variant_file"]] + list(kw["phase_input_files"])
 
 
+def cli_main(argv):
+    """Run whatshap's command-line entry point (argument parser, defaults, validate, main) in-process.
+    Returns (status, message): ok / cle (non-zero exit: usage or CommandLineError) / crash (uncaught exception)."""
+    import logging
+
+    import whatshap.__main__ as wm
+
+    errors = []
+
+    class _Capture(logging.Handler):
+        def emit(self, record):
+            errors.append(record.getMessage())
+
+    root = logging.getLogger()
+    cap = _Capture(level=logging.ERROR)
+    root.addHandler(cap)
+    level = root.manager.disable
+    logging.disable(logging.WARNING)
+    orig_setup = wm.setup_logging
+    wm.setup_logging = lambda debug: None
+    import contextlib
+    import io
+
+    buf = io.StringIO()
+    try:
+        with contextlib.redirect_stderr(buf):
+            wm.main(argv)
+    except SystemExit as e:
+        if e.code not in (0, None):
+            return "cle", "whatshap exited %r: %s %s (argv %r)" % (e.code, " | ".join(errors)[-800:], buf.getvalue()[-600:], argv)
+    except Exception:
+        return "crash", traceback.format_exc()[-2500:]
+    finally:
+        wm.setup_logging = orig_setup
+        root.removeHandler(cap)
+        logging.disable(level)
+    return "ok", ""
+
+
 def _run_phase_cli(kw):
     """Same run through whatshap's command-line entry point (argument parser, defaults, validate, main)."""
     import logging
